@@ -1399,25 +1399,47 @@ def residual_normal(ref, y, rel=1e-6):
     return g / ref.geo.w
 
 
-def romberg_directional(phi, h0, levels=7):
-    """Central differences q_k = (phi(h_k) - phi(-h_k)) / (2 h_k),
-    h_k = h0 2^-k, plus Romberg extrapolation.
+def fd_estimate(phi, h0, eps, levels=7):
+    """Directional derivative of ``t -> phi(t)`` at 0 from a ladder of
+    central differences ``q_k = (phi(h_k) - phi(-h_k)) / (2 h_k)``,
+    ``h_k = h0 2^-k``, with Romberg extrapolation.
 
-    Returns ``(q, best, err, fmax)``: raw ladder, extrapolated value, an
-    error estimate that depends on function values only (difference of the
-    last two diagonal entries plus the rounding floor eps*|phi|/h amplified
-    by the extrapolation) and the largest |phi| met.
+    Returns ``(best, err, q, order_ok)``: the extrapolated value, an error
+    estimate that depends on the function values only (difference of the two
+    last diagonal entries used + rounding floor ``eps*max|phi|/h`` amplified
+    by the extrapolation), the raw ladder and the result of the order test:
+    on the part of the ladder that is above the rounding floor successive
+    errors (against ``best``) must fall by >= 2^1.5 per halving (second
+    order).
     """
-    q = []
+    q, hs = [], []
     fmax = 0.0
     for k in range(levels):
         h = h0 * 2.0 ** (-k)
         a, b = phi(h), phi(-h)
+        if not (np.isfinite(a) and np.isfinite(b)):
+            return None, INF, q, False
         fmax = max(fmax, abs(a), abs(b))
         q.append((a - b) / (2 * h))
-    T = [list(q)]
+        hs.append(h)
+    diag = [q[0]]
+    row = list(q)
     for j in range(1, levels):
-        prev = T[-1]
-        T.append([(4.0 ** j * prev[i + 1] - prev[i]) / (4.0 ** j - 1)
-                  for i in range(len(prev) - 1)])
-    return q, T, fmax
+        row = [(4.0 ** j * row[i + 1] - row[i]) / (4.0 ** j - 1)
+               for i in range(len(row) - 1)]
+        diag.append(row[0])
+    best, err = diag[0], INF
+    for j in range(1, levels):
+        floor = 4.0 * eps * fmax / hs[j]
+        est = abs(diag[j] - diag[j - 1]) + floor
+        if est < err:
+            best, err = diag[j], est
+    # order test on the raw ladder
+    order_ok = True
+    for k in range(levels - 1):
+        e0, e1 = abs(q[k] - best), abs(q[k + 1] - best)
+        floor = 64.0 * eps * fmax / hs[k + 1] + 8 * err
+        if e0 > 50 * floor and e1 > floor:
+            if e0 / e1 < 2.0 ** 1.5:
+                order_ok = False
+    return best, err, q, order_ok
